@@ -356,7 +356,23 @@ func (m *ledgerMon) check(h uint32, b *BlockSpec, prevDump, dump []string, prevW
 		}
 		if applied && len(specRates) > 0 {
 			m.rep.Count("staking:snapshot-rotation-checked")
-			if d := balMapDiff(L.SC, prev.Bal); d != "" {
+			// (the one-time adjustments of a height — burn-address zeroings, mint, burn of the mint —
+			// run ahead of the snapshot: at those heights the special addresses are left out)
+			before := prev.Bal
+			if h == a.DevRewards || h == a.V202 || h == a.V204 || h == a.V204Burn {
+				before = map[string]map[int]*big.Int{}
+				for k, v := range prev.Bal {
+					before[k] = v
+				}
+				for _, sp := range []string{m.burnHex, m.oldBurnHex, m.mintHex} {
+					if L.SC[sp] != nil {
+						before[sp] = L.SC[sp]
+					} else {
+						delete(before, sp)
+					}
+				}
+			}
+			if d := balMapDiff(L.SC, before); d != "" {
 				m.violate("staking:snapshot-current", "after snapshot height "+fmt.Sprint(h)+" the current snapshot is not the balance table as it stood before the block: "+d, h)
 			}
 			if d := balMapDiff(L.SP, prev.SC); d != "" {
@@ -550,6 +566,40 @@ func (m *ledgerMon) check(h uint32, b *BlockSpec, prevDump, dump []string, prevW
 		}
 		if got := new(big.Int).SetUint64(rr["PEG"]); got.Cmp(exp) != 0 && exp.IsUint64() {
 			m.violate("rates:peg-price:"+eraOf(a, h), fmt.Sprintf("PEG recorded at %v, the pricing phase of the height prescribes %v", got, exp), h)
+		}
+	}
+	// C16: "the unconverted part of the input is refunded in the source asset": for every genuine
+	// PEG request executed in a bank-era block, the refund recorded with it (and, by the history
+	// replay above, credited) is floor((floor(in*src/peg) - paid) * peg / src) at the block's rates
+	if h >= a.ConvLimit && h < a.V20 {
+		rates := L.Rates[int64(h)]
+		for _, bb := range L.B {
+			if bb.exec != int64(h) || L.MixedPegBatch(bb.hash) {
+				continue
+			}
+			for _, t := range L.T[bb.hash] {
+				if t.action != 2 || t.toAsset != "PEG" {
+					continue
+				}
+				src, peg := rates[t.fromAsset], rates["PEG"]
+				if src == 0 || peg == 0 {
+					continue
+				}
+				maxY := new(big.Int).Mul(big.NewInt(t.fromAmount), new(big.Int).SetUint64(src))
+				maxY.Div(maxY, new(big.Int).SetUint64(peg))
+				rest := new(big.Int).Sub(maxY, big.NewInt(t.toAmount))
+				exp := new(big.Int).Mul(rest, new(big.Int).SetUint64(peg))
+				exp.Div(exp, new(big.Int).SetUint64(src))
+				got := new(big.Int)
+				for _, o := range t.outputs {
+					v, _ := new(big.Int).SetString(o[1], 10)
+					got.Add(got, v)
+				}
+				m.rep.Count("bank:refund-checked")
+				if rest.Sign() < 0 || got.Cmp(exp) != 0 {
+					m.violate("bank:refund", fmt.Sprintf("PEG request %s[%d]: input %d %s, paid %d PEG of %v requested, refund recorded %v, floor((requested-paid)*%d/%d) = %v", bb.hash, t.idx, t.fromAmount, t.fromAsset, t.toAmount, maxY, got, peg, src, exp), h)
+				}
+			}
 		}
 	}
 	// C16: bank rows
@@ -838,6 +888,23 @@ func runLedgerChainWith(rep *Report, seed int64, variant int, tier string, acts 
 					b.TX = append(b.TX, g.Batch(h, u, []fat2.Transaction{Transfer(u.FA(), t, fat2.AddressAmountTuple{Address: dst, Amount: bal / 20})}))
 					break
 				}
+			}
+		}
+		// the burn address receives some of the LAST asset of the ticker list right before its
+		// zeroing height (a zeroing loop that stops one short would leave it there)
+		if lastT := fat2.PTickerMax - 1; h+6 >= s.Acts.V202 && h < s.Acts.V202 && h > s.Acts.TxConv+3 {
+			for _, u := range g.Users {
+				if u.IsE && h < s.Acts.RCDE {
+					continue
+				}
+				if bal := w.Balance(u.FA(), lastT); bal > 0 {
+					b.TX = append(b.TX, g.Batch(h, u, []fat2.Transaction{Transfer(u.FA(), lastT, fat2.AddressAmountTuple{Address: newBurn, Amount: bal})}))
+					rep.Count("ledger:last-asset-to-burn-address")
+				} else if bal := w.Balance(u.FA(), fat2.PTickerFCT); bal > 1e6 && h+4 <= s.Acts.V202 {
+					b.TX = append(b.TX, g.Batch(h, u, []fat2.Transaction{Conversion(u.FA(), fat2.PTickerFCT, bal/40, lastT)}))
+					rep.Count("ledger:conversion-into-last-asset")
+				}
+				break
 			}
 		}
 		// an UNGRADED snapshot block in the 2.0.2 era with a conversion waiting in holding: the
